@@ -5,8 +5,11 @@ package graph
 
 import (
 	"container/heap"
-	"math"
 )
+
+// infinite is the distance of a vertex that has not been reached. Distances
+// are kept as int, like the edge weights they are sums of.
+const infinite = int(^uint(0) >> 1)
 
 // Dijkstra implements Dijkstra's algorithm for finding single source
 // shortest paths in an edge-weighted graph with non-negative edge weights.
@@ -24,7 +27,7 @@ func (g *Graph) Dijkstra(src Vertex) (distTo map[interface{}]int, edgeTo map[int
 	for k, _ := range g.hash {
 		item := &distQueueItem{
 			v:        k,
-			distance: math.MaxInt32,
+			distance: infinite,
 			previous: nil,
 			index:    len(queue),
 		}
@@ -57,7 +60,7 @@ func (g *Graph) Dijkstra(src Vertex) (distTo map[interface{}]int, edgeTo map[int
 			v := queueItem[vhash]
 
 			// tempDistance <- distance[U] + edge_weight(U, V)
-			tempDistance := u.distance + int32(weight)
+			tempDistance := u.distance + weight
 
 			// if tempDistance < distance[V]
 			if tempDistance < v.distance {
@@ -74,7 +77,7 @@ func (g *Graph) Dijkstra(src Vertex) (distTo map[interface{}]int, edgeTo map[int
 	distTo = make(map[interface{}]int, len(queueItem))
 	edgeTo = make(map[interface{}]Vertex, len(queueItem))
 	for _, item := range queueItem {
-		distTo[item.v] = int(item.distance)
+		distTo[item.v] = item.distance
 		edgeTo[item.v] = g.hash[item.previous]
 	}
 
@@ -88,7 +91,7 @@ type distQueue []*distQueueItem
 
 type distQueueItem struct {
 	v        interface{} // Vertex hashcode
-	distance int32
+	distance int
 	previous interface{} // Previous vertex hashcode
 	index    int
 }
